@@ -1159,7 +1159,13 @@ def _loops_to_reference(fn, rf, log, q):
                                      n.target)
         n.iter = ast.copy_location(ast.parse(header, mode='eval').body, it)
         have[header] += 1
-        if header in rehoist and rehoist[header][0] not in _names(fn):
+        if header in rehoist and rehoist[header][0] not in _names(fn) and \
+                sum(1 for x in _own_nodes(fn) if isinstance(x, ast.expr)
+                    and _n(x) == rehoist[header][1]) == \
+                sum(1 for x in ast.walk(n) if isinstance(x, ast.expr)
+                    and _n(x) == rehoist[header][1]):
+            # (occurrences outside the loop are left to _rehoist, which
+            # places the local in front of the first of them)
             nm, dtext, raw = rehoist[header]
             # re-introduce the recorded local in front of the loop and use
             # it for the lookup inside the loop
@@ -1384,8 +1390,13 @@ def _inline_temp(fn, name, allow_calls=False, ref_calls=None):
     if not loads:
         return False
     # an object that is mutated through the local is not a value: never
-    # duplicate it
-    for n in _own_nodes(fn):
+    # duplicate it -- unless the local merely aliases an existing container
+    # (attribute / constant-key / scalar-index look-up chain), in which case
+    # every spelling denotes the same object
+    alias_of_existing = _pure_lookup(val) and all(
+        isinstance(x.slice, (ast.Constant, ast.Name))
+        for x in ast.walk(val) if isinstance(x, ast.Subscript))
+    for n in ([] if alias_of_existing else _own_nodes(fn)):
         if isinstance(n, ast.Call) and isinstance(n.func, ast.Attribute) and \
                 isinstance(n.func.value, ast.Name) and \
                 n.func.value.id == name:
@@ -2055,6 +2066,13 @@ def _temps_and_names(fn, rf, log, q):
         ref_only = [n for n in ref_locs if n not in locs]
         if not cur_only:
             return
+        # a recorded lookup local whose definition is spelled out in the
+        # current text is re-introduced by _rehoist: not a pairing candidate
+        texts = {_n(x) for x in _own_nodes(fn) if isinstance(
+            x, (ast.Attribute, ast.Subscript)) and isinstance(
+                getattr(x, 'ctx', None), ast.Load)}
+        ref_only_d = [n for n in ref_only if not (
+            len(ref_defs.get(n, [])) == 1 and ref_defs[n][0] in texts)]
         used = _names(fn) | set(params)
         cdefs = _defs_of(fn)
         # A. pair by definition text: the whole definition list, or -- for a
@@ -2126,7 +2144,7 @@ def _temps_and_names(fn, rf, log, q):
             ast.fix_missing_locations(fn)
             continue
         # C. more locals than recorded: inline other temporaries
-        if len(cur_only) > len(ref_only):
+        if len(cur_only) > len(ref_only_d):
             for c_ in reversed(cur_only):
                 if _inline_temp(fn, c_):
                     log.append('%s: temporary %s inlined' % (q, c_))
@@ -2144,9 +2162,9 @@ def _temps_and_names(fn, rf, log, q):
                 ast.fix_missing_locations(fn)
                 continue
         # D. pair the rest by order of first binding
-        if cur_only and len(cur_only) == len(ref_only):
+        if cur_only and len(cur_only) == len(ref_only_d):
             mapping = {}
-            for c_, r_ in zip(cur_only, ref_only):
+            for c_, r_ in zip(cur_only, ref_only_d):
                 if r_ not in used:
                     mapping[c_] = r_
             if mapping:
